@@ -280,7 +280,14 @@ def _analyse_function(prog, cg, func, fields, flags, true_value, direct, res, en
         for f in fields:
             _, o1, g1 = get(a, f)
             _, o2, g2 = get(b, f)
-            out.add((f, o1 or o2, g1 if g1 == g2 else '?'))
+            if g1 == g2:
+                g = g1
+            else:
+                # a store whose companion flag has not been written yet stays pending when paths meet: otherwise a
+                # branch that forgets the flag would hide behind a sibling branch that sets it
+                pend = {x for x in (g1, g2) if isinstance(x, str) and x.startswith('!')}
+                g = (pend.pop() if len(pend) == 1 else '!mixed') if pend else '?'
+            out.add((f, o1 or o2, g))
         return frozenset(out)
 
     instates = C.forward_dataflow(func, init, transfer, join, edge_transfer=edge)
@@ -291,7 +298,7 @@ def _analyse_function(prog, cg, func, fields, flags, true_value, direct, res, en
             if isinstance(flag, str) and flag.startswith('!'):
                 # a store whose companion flag was never set afterwards on some path
                 kind = flag[1:]
-                if kind in ('heap', 'static'):
+                if kind in ('heap', 'static', 'mixed'):
                     # find a store node for the report
                     node = None
                     for n in func.body.walk():
